@@ -324,6 +324,17 @@ def views(ctx, crate):
                 else:             # new pending range: start S, end E
                     if v == S or v == E: n_new += 1
                     elif v[0] == 'op' and term_is_u64(v) and v[1] in ('add', 'shl'): bad.append(("new", show(v)[:60], show(E)[:60]))
+        # a pending range is written out only when it is not empty (prev_min != prev_max), and the last one is
+        # written out after the loop under the same test
+        pushes = [ev for ev in e2.events.values() if ev.callee and strip_generics(ev.callee).endswith("Vec::push") and len(ev.site) == 2]
+        def nonempty(ev):
+            v = ev.args[1]
+            if not (v[0] == 'agg' and len(v[3]) == 2): return False
+            a, c_ = v[3]
+            return any(f[0] == 'b' and f[1][0] == 'op' and ((f[1][1] == 'ne' and f[2]) or (f[1][1] == 'eq' and not f[2])) and {f[1][3], f[1][4]} == {a, c_} for f in ev.facts)
+        okp = len(pushes) >= 3 and all(nonempty(ev) for ev in pushes)
+        ctx.report(clause, "to_ranges:non-empty-pending-range-written", okp, "%d push sites, each `prev_min..prev_max` under prev_min != prev_max (two in the loop, one after it)" % len(pushes) if okp else
+                   "a range is pushed without the test that it is not empty, or the final flush is missing (%d push sites)" % len(pushes), at=b.span, kind="N")
         ctx.report(clause, "to_ranges:pending-range-updates", not bad and n_ext >= 2 and n_new >= 4,
                    "%d extensions to the end of the cell's range, %d (start, end) of a new pending range" % (n_ext, n_new) if not bad and n_ext >= 2 and n_new >= 4 else
                    "a pending range is updated with %s where the cell's range ends at %s (%s)" % (bad[0][1], bad[0][2], bad[0][0]) if bad else "updates not found (%d, %d)" % (n_ext, n_new), at=b.span, kind="N")
